@@ -413,6 +413,17 @@ def extract_source(fn):
     if not os.path.exists(src_path):
         raise LostAnchor('source file %s missing' % fn['opts']['src'])
     src = open(src_path).read()
+    if 'field' in fn['opts']:
+        # R7 (attribute lifting): `key = <expr>` of the `#[attr(..)]` attribute on a struct field — the expression runs in
+        # the constructor the attribute macro generates; it becomes the body of the lifted function, its free variables
+        # (earlier fields) are the parameters.  opts: item=<StructName> field=<f> attr=<builder> key=<default>
+        try:
+            fa = rsx.find_struct_field_attr(src, fn['opts']['item'], fn['opts']['field'], fn['opts'].get('attr', 'builder'), fn['opts'].get('key', 'default'))
+        except LookupError as e:
+            raise LostAnchor('%s: %s' % (fn['id'], e))
+        meta = dict(id=fn['id'], src=fn['opts']['src'], item='%s.%s #[%s(%s = ..)]' % (fn['opts']['item'], fn['opts']['field'], fn['opts'].get('attr', 'builder'), fn['opts'].get('key', 'default')),
+                    line=fa['line'], end_line=fa['end_line'], sha256=hashlib.sha256(fa['body'].encode()).hexdigest()[:16], kind='attr-expr')
+        return dict(sig='', body=fa['body'], meta=meta, raw='fn __attr_expr() {' + fa['body'] + '}')
     f = rsx.find_fn(src, fn['opts']['item'])
     body = rsx.strip_comments(f['body'])
     meta = dict(id=fn['id'], src=fn['opts']['src'], item=fn['opts']['item'], line=f['line'], end_line=f['end_line'],
